@@ -1,12 +1,12 @@
 package c01
 
 import (
-	"os"
-	"strings"
 	"bytes"
 	"encoding/gob"
 	"errors"
 	"fmt"
+	"os"
+	"strings"
 	"testing"
 	"time"
 
